@@ -10,7 +10,7 @@ from .sym import Poly, Sym
 from .terms import strip, short, cname, unmut, walk
 
 STATEMENTS = {
-    "table-values": "a value looked up in a HashMap built by `for (k, v) in TABLE.iter() { m.insert(f(k), *v) }` from a literal table is one of the table's values; an element of a literal array is one of its values",
+    "table-values": "a value looked up in a HashMap built by `for (k, v) in TABLE.iter() { m.insert(f(k), *v) }` (or `TABLE.iter().map(|(k, v)| (f(k), *v)).collect()`) from a literal table is one of the table's values; an element of a literal array is one of its values",
     "clears-top-bit": "`while x != 0 { ..; x ^= 1 << (BITS-1 - x.leading_zeros()) }` clears one set bit per iteration: x never exceeds its initial value, the loop runs at most bit_length(initial) times and terminates",
     "dense-ids": "if position(|(i, c)| usize::from(c.id) != i) over enumerate() is None and id is a u16, the sequence has at most 2^16 elements",
     "fifo-total": "separated_foldl1(repeat(0.., p), sep, f) over backtracking-only combinators on a complete &[u8] stream returns Ok (winnow contract; grammar premises = C07.R3)",
@@ -62,6 +62,46 @@ def map_built_from_table(prog, static_path):
     fan = analysis(prog, fb)
     # exactly one insert, inside a loop over iter(param 1), value = *(elem.1)
     ins = [(bb, t) for bb, t in fb.calls() if short(cname(t)).endswith("::insert")]
+    if not ins:
+        # the same map as an iterator pipeline: `table.iter().map(|(k, v)| (g(k), *v)).collect()`
+        from .guards import closure_info, closure_ret, subst_upvars
+        rets_c = [unmut(x) for _, x in fan.ret_assignments()]
+        if len(rets_c) != 1:
+            return None
+        c0 = rets_c[0]
+        if not (c0[0] == "call" and short(c0[1]) == "Iterator::collect" and len(c0[2]) == 1):
+            return None
+        mp = unmut(c0[2][0])
+        if not (mp[0] == "call" and short(mp[1]) == "Iterator::map" and len(mp[2]) == 2):
+            return None
+        it = unmut(mp[2][0])
+        while it[0] == "call" and short(it[1]) in ("IntoIterator::into_iter", "<impl [T]>::iter") and it[2]:
+            it = unmut(it[2][0])
+        while it[0] == "cast":
+            it = unmut(it[2])
+        if it != ("param", 1):
+            return None
+        ci = closure_info(prog, fan, unmut(mp[2][1]))
+        if not ci:
+            return None
+        cr = closure_ret(prog, ci[0])
+        if len(cr) != 1:
+            return None
+        r0 = unmut(subst_upvars(cr[0], ci[1]))
+        if not (r0[0] == "aggr" and r0[1] == "tuple" and len(r0[2]) == 2):
+            return None
+        v = unmut(r0[2][1])
+        while v[0] in ("deref", "ref"):
+            v = unmut(v[1])
+        if not (v[0] == "field" and v[2] == 1):
+            return None
+        e = unmut(v[1])
+        while e[0] in ("deref", "ref"):
+            e = unmut(e[1])
+        if e != ("carg", 0):
+            return None
+        table = prog.const_lit(arg[1])
+        return [row[1] for row in table]
     if len(ins) != 1:
         return None
     for _, c in fb.calls():
